@@ -27,6 +27,9 @@ func runC20(c *Ctx) {
 	ruleTaint(c)
 	ruleClassify(c)
 	ruleInfoState(c)
+	if m := findTT(c, "CLASSIFY"); m != nil {
+		ruleKeyAddr(c, m, "CLASSIFY") // the address classified for tunnel time is the client's own
+	}
 	ruleArityAll(c, "ARITY")
 }
 
